@@ -192,6 +192,7 @@ class RefOut:
     retval: object
     sites: list
     optional: list = field(default_factory=list)  # hidden Cond-branch draws (may or may not be drawn)
+    preds: list = field(default_factory=list)  # (path, index, bool) of every Cond predicate evaluated
 
 
 def tree_index(x, i):
@@ -252,6 +253,7 @@ def run(prog: L.Prog, args, choices, kwargs=None, path=(), index=()) -> RefOut:
     total = 0.0
     sites = []
     optional = []
+    preds = []
     for st in prog.body:
         p = path + (st.addr,)
         if isinstance(st, L.Site):
@@ -268,6 +270,7 @@ def run(prog: L.Prog, args, choices, kwargs=None, path=(), index=()) -> RefOut:
             sub = run(st.prog, a, choices[st.addr], k, p, index)
             sites += sub.sites
             optional += sub.optional
+            preds += sub.preds
             total += sub.logp
             v[st.addr] = sub.retval
         elif isinstance(st, L.VmapCall):
@@ -292,6 +295,7 @@ def run(prog: L.Prog, args, choices, kwargs=None, path=(), index=()) -> RefOut:
                     sub = run(st.callee, ai, ci, None, p, index + (i,))
                     sites += sub.sites
                     optional += sub.optional
+                    preds += sub.preds
                     total += sub.logp
                     rets.append(sub.retval)
             v[st.addr] = tree_stack(rets)
@@ -304,6 +308,7 @@ def run(prog: L.Prog, args, choices, kwargs=None, path=(), index=()) -> RefOut:
                 sub = run(st.prog, [carry, xt], tree_index(choices[st.addr], t), None, p, index + (t,))
                 sites += sub.sites
                 optional += sub.optional
+                preds += sub.preds
                 total += sub.logp
                 carry, out = sub.retval
                 outs.append(out)
@@ -311,9 +316,11 @@ def run(prog: L.Prog, args, choices, kwargs=None, path=(), index=()) -> RefOut:
         elif isinstance(st, L.CondCall):
             pred = bool(np.asarray(L.evaluate(st.pred, np, v)))
             a = [L.evaluate(e, np, v) for e in st.args]
+            preds.append((p, index, pred))
             sub = run(st.pt if pred else st.pf, a, choices[st.addr], None, p, index)
             sites += sub.sites
             optional += sub.optional
+            preds += sub.preds
             total += sub.logp
             # the branch not taken is evaluated by genjax as well; its draws never reach an
             # observable.  Parameters of its sites are computed with the visible values as
@@ -327,7 +334,7 @@ def run(prog: L.Prog, args, choices, kwargs=None, path=(), index=()) -> RefOut:
             v[st.addr] = sub.retval
         else:
             raise TypeError(st)
-    return RefOut(total, L.evaluate(prog.ret, np, v), sites, optional)
+    return RefOut(total, L.evaluate(prog.ret, np, v), sites, optional, preds)
 
 
 def leaf_paths(prog: L.Prog, path=()):
